@@ -65,7 +65,10 @@ def assert_repo_import():
 def source_frame(src: dict) -> pl.DataFrame:
     names = [n for n, _ in src["cols"]]
     schema = {n: PL_TYPES[t] for n, t in src["cols"]}
-    cols = {n: [row[i] for row in src["rows"]] for i, n in enumerate(names)}
+    def conv(v):
+        return v[0] / v[1] if isinstance(v, tuple) else v
+
+    cols = {n: [conv(row[i]) for row in src["rows"]] for i, n in enumerate(names)}
     return pl.DataFrame(cols, schema=schema)
 
 
